@@ -33,6 +33,7 @@
 #include <stdlib.h>
 #include <string.h>
 #include <sys/ioctl.h>
+#include <sys/sendfile.h>
 #include <sys/stat.h>
 #include <sys/syscall.h>
 #include <sys/types.h>
@@ -744,6 +745,35 @@ ssize_t copy_file_range(int fin, off64_t *oin, int fout, off64_t *oout, size_t l
     ssize_t ret; int e;
     if (d.fail) { ret = -1; e = d.err; } else { ret = real(fin, oin, fout, oout, len, flags); e = errno; }
     logline("copy", po, pi, ret, ret < 0 ? e : 0, d.fail, (long)len, 0);
+    after(&d, po, pi);
+    errno = e;
+    return ret;
+}
+
+ssize_t sendfile(int fout, int fin, off_t *off, size_t len) {
+    REAL(sendfile);
+    if (!inited) return real(fout, fin, off, len);
+    char b[PATH_MAX], b2[PATH_MAX];
+    char *pi = fdp(fin, b), *po = fdp(fout, b2);
+    if (!po && !pi) return real(fout, fin, off, len);
+    struct dec d = decide("copy", po, pi);
+    ssize_t ret; int e;
+    if (d.fail) { ret = -1; e = d.err; } else { ret = real(fout, fin, off, len); e = errno; }
+    logline("copy", po, pi, ret, ret < 0 ? e : 0, d.fail, (long)len, 1);
+    after(&d, po, pi);
+    errno = e;
+    return ret;
+}
+ssize_t sendfile64(int fout, int fin, off64_t *off, size_t len) {
+    REAL(sendfile64);
+    if (!inited) return real(fout, fin, off, len);
+    char b[PATH_MAX], b2[PATH_MAX];
+    char *pi = fdp(fin, b), *po = fdp(fout, b2);
+    if (!po && !pi) return real(fout, fin, off, len);
+    struct dec d = decide("copy", po, pi);
+    ssize_t ret; int e;
+    if (d.fail) { ret = -1; e = d.err; } else { ret = real(fout, fin, off, len); e = errno; }
+    logline("copy", po, pi, ret, ret < 0 ? e : 0, d.fail, (long)len, 1);
     after(&d, po, pi);
     errno = e;
     return ret;
